@@ -611,6 +611,9 @@ func randomHistory(rng *rand.Rand, n, length int, conn bool) []string {
 	var ops []string
 	live := []int{} // ids believed in flight (approximate, only steers the generator)
 	others := []int{n + 1, n + 7, -3, 32767, -32768}
+	if n+7 > 32767 { // stream ids are int16: stay inside the type
+		others = []int{-1, -7, -3, 32767, -32768}
+	}
 	pick := func() int {
 		if len(live) > 0 && rng.Intn(10) < 8 {
 			return live[rng.Intn(len(live))]
@@ -745,7 +748,7 @@ func genHist(tier string) []Case {
 	}
 	exs := []ex{{1, 1, 4, false}, {2, 1, 3, false}, {2, 2, 3, false}, {3, 1, 3, false}, {1, 1, 4, true}, {2, 1, 3, true}}
 	if !quick {
-		exs = []ex{{1, 1, 6, false}, {1, 2, 5, false}, {2, 1, 5, false}, {2, 2, 4, false}, {3, 1, 4, false}, {3, 2, 4, false}, {1, 1, 6, true}, {2, 1, 5, true}, {3, 2, 4, true}}
+		exs = []ex{{1, 1, 5, false}, {1, 2, 4, false}, {2, 1, 4, false}, {2, 2, 4, false}, {3, 1, 4, false}, {3, 2, 3, false}, {1, 1, 5, true}, {2, 1, 4, true}, {3, 2, 3, true}}
 	}
 	for _, e := range exs {
 		g := fmt.Sprintf("exh-N%d-P%d-d%d", e.n, e.p, e.depth)
@@ -798,10 +801,10 @@ func genHist(tier string) []Case {
 	// witnesses of defects (repaired or listed): the former F9 history, the F12 history, the former F11 history
 	add(Case{Group: "witness-F9", Level: 1, N: 2, P: 2, T: bigT, Ops: []string{"X5", "X6", "M", "L5", "M", "M", "M"}})
 	add(Case{Group: "witness-F12-conn", Conn: true, Level: 1, N: 1, P: 1, T: bigT, Ops: []string{"S0", "L1", "S0", "S0", "L1", "S0"}})
-	add(Case{Group: "witness-F11", Level: 1, N: 3, P: 2, T: 10, UnitMs: 30, Ops: []string{"M", "D1", "T30", "C"}})
+	add(Case{Group: "witness-F11", Level: 1, N: 3, P: 2, T: 10, UnitMs: 50, Ops: []string{"M", "D1", "T30", "C"}})
 	// timing
 	for _, ops := range timingHistories(rng, quick) {
-		add(Case{Group: "timing", Level: 1, N: 3, P: 2, T: 10, UnitMs: 30, Ops: ops})
+		add(Case{Group: "timing", Level: 1, N: 3, P: 2, T: 10, UnitMs: 50, Ops: ops})
 	}
 	return cases
 }
@@ -968,6 +971,3 @@ func main() {
 	_ = sort.Ints
 	_ = runtime.NumGoroutine
 }
-
-func sockSessions(tier string) {}
-func stress(tier string)       {}
